@@ -1,6 +1,6 @@
 SPECIFICATION Spec
 CONSTANTS
   PRMDocs <- PRMDocsCore
-INVARIANTS OnlySafeURLs UsedOnlyIfMatching PKCERequired NoScriptSchemes ExchangeOnlyIfStateAndIss PreregBoundToIssuer TokenOnlyIfChecksPassed ResultKnown
+INVARIANTS OnlySafeURLs UsedOnlyIfMatching PKCERequired NoScriptSchemes ExchangeOnlyIfStateAndIss PreregBoundToIssuer NoFallbackAfterRejected TokenOnlyIfChecksPassed ResultKnown
 PROPERTY NoTokenAfterFailure
 CHECK_DEADLOCK FALSE
